@@ -46,7 +46,8 @@ class Chunks(Harness):
              "sam": [[[1, 1, 1, 1, 1, 1, 1, 1, 1, 1, 1], [1, 1, 1, 1, 1, 1, 1, 1, 1, 2, 2, 2]]]}
         S = {"fasta2": [[[1, 1]], [[1, 2], [2, 1]], [[1, 1], [1, 3], [1, 1]]],
              "fastq": [[[1, 1]], [[1, 2], [2, 1]]],
-             "mfasta": [[[1, 3]], [[1, 3], [1, 2]], [[1, 4], [1, 1], [1, 2]]]}
+             "mfasta": [[[1, 3]], [[1, 3], [1, 2]], [[1, 4], [1, 1], [1, 2]],
+                        [[1, 2], [1, 5], [1, 1]]]}       # a short record, then one longer than two reads of the first one's size
         if tier == "thorough":
             D["bed3"].append([[1, 1, 1], [3, 1, 1], [1, 1, 1], [1, 2, 2]])
             S["fastq"].append([[1, 1], [1, 3], [2, 2]])
